@@ -205,6 +205,19 @@ func runAccess(c runCfg) error {
 					if tv, ok := p.TypesInfo.Types[call.Fun]; ok && tv.IsType() {
 						readOnly = true // a conversion
 					}
+					if callee == "append" && len(call.Args) > 0 {
+						// append(x, ...) may write into the spare capacity of x's backing array: x shared => a write
+						// (unless x is a full slice expression x[a:b:b], which forces a copy)
+						if se, ok := call.Args[0].(*ast.SliceExpr); !ok || !se.Slice3 {
+							if id := base(call.Args[0]); id != nil {
+								if obj, ok := p.TypesInfo.Uses[id].(*types.Var); ok && (obj.Parent() == p.Types.Scope() || (recv != nil && obj == recv)) {
+									if _, isSel := call.Args[0].(*ast.SelectorExpr); isSel || obj.Parent() == p.Types.Scope() {
+										written[id] = true
+									}
+								}
+							}
+						}
+					}
 					for ai, a := range call.Args {
 						if callee == "copy" && ai == 1 {
 							continue // the source of copy
